@@ -61,7 +61,7 @@ def nontrivial_op(case, gd):
 # Mirrors lean/RoModel/FactPreds.lean. Used only to NAME the offending rows and to focus the
 # dynamic search when the Lean `decide` over the regenerated table fails; it decides nothing.
 
-KNOWN_UNSAFE_PASSTHROUGH = ["StartWith", "Defer", "Catch", "TapOnSubscribeWithContext", "TapOnFinalize"]
+KNOWN_UNSAFE_PASSTHROUGH = []
 ASYNC_BY_DESIGN = ["Interval", "IntervalWithInitial", "FromChannel", "Never", "Future", "ToChannel", "Delay", "Timeout", "detachOn", "ThrowOnContextCancel"]
 KNOWN_CTX_ROWS = {("MergeAll", "complete", "lastSeen"), ("OnErrorResumeNextWith", "error", "lastSeen"), ("OnErrorResumeNextWith", "complete", "lastSeen"),
                   ("WhileIWithContext", "subscribe", "lastSeen"), ("ReduceIWithContext", "next", "lastSeen"), ("RepeatWith", "complete", "lastSeen"),
